@@ -486,6 +486,48 @@ func c13exec(c *h.Ctx, cs *h.Case) {
 			}
 			recordRoster("Concat")
 			aliasCheck(roster, "Concat")
+		case "zconcat":
+			// Concat over identities whose deprecated ID field is unset (struct literals — receiver and arguments): members
+			// are recognised by their keys (fix /repo 08623bf; before, every argument "was" entry 0 and was dropped).  The
+			// current roster stays what it is.
+			ms, ok := parseMembers(tk[2:])
+			if !ok || roster == nil || !oneKind(ms, rosterKind) {
+				bad()
+				continue
+			}
+			strip := func(si *network.ServerIdentity) *network.ServerIdentity {
+				return &network.ServerIdentity{Public: si.Public, Address: si.Address, ServiceIdentities: si.ServiceIdentities}
+			}
+			var base, add []*network.ServerIdentity
+			for _, si := range roster.List {
+				base = append(base, strip(si))
+			}
+			have := map[string]bool{}
+			want := 0
+			for _, m := range members {
+				have[string(keys[m[0]].raw)] = true
+				want++
+			}
+			for i, m := range ms {
+				add = append(add, strip(mkSI(m, 100+i)))
+				if !have[string(keys[m[0]].raw)] {
+					have[string(keys[m[0]].raw)] = true
+					want++
+				}
+			}
+			res := onet.NewRoster(base).Concat(add...)
+			if res == nil {
+				cs.Impl = append(cs.Impl, "err:nil-roster")
+				cs.Fail("roster-derived:zconcat", "Concat returned no roster")
+				continue
+			}
+			if len(res.List) != want {
+				cs.Fail("roster-derived:zconcat", fmt.Sprintf("Concat over identities without ID field: %d members, %d expected (members are told apart by their keys)", len(res.List), want))
+			}
+			if g, err := res.GetID(); err != nil || !g.Equal(res.ID) || !onet.NewRoster(res.List).ID.Equal(res.ID) {
+				cs.Fail("roster-derived-id:Concat", "the roster returned by Concat (identities without ID field) carries an id that is not the id of its list")
+			}
+			cs.Impl = append(cs.Impl, res.ID.String())
 		case "withroot":
 			if len(tk) != 3 || roster == nil {
 				bad()
@@ -1252,7 +1294,7 @@ func c13gen(c *h.Ctx, yield func(*h.Case)) {
 				all = append(all, m)
 			}
 		}
-		ops = append(ops, "c13 concat "+strings.Join(add, " "),
+		ops = append(ops, "c13 zconcat "+strings.Join(add, " "), fmt.Sprintf("c13 zconcat %d", n), "c13 concat "+strings.Join(add, " "),
 			"c13 roster "+strings.Join(all, " "),    // the same list through NewRoster: same id
 			idRoster(n),                             // the receiver again
 			fmt.Sprintf("c13 concat %d", n),         // one new identity: another id than the receiver's
